@@ -193,6 +193,9 @@ CATALOGUE = {
                                 "oa: A? = A()", "ua = get oa", "print typeof ua.f(1)", "print ua.f(1)"],
     "param-alias-of-class-fn-field": ["class A {", "\tf: fn(int) -> int", "\tconstructor(self) {", "\t\tself.f = fn(x: int) -> int {", "\t\t\treturn x + 1", "\t\t}", "\t}", "}",
                                       "type B A", "use = fn(q: B) -> int {", "\treturn q.f(5)", "}", "print typeof use(A())", "print use(A())"],
+    "wide-int-literal-operand": ["wv = 1", "print typeof (wv + 2147483648)", "print wv + 2147483648", "print typeof (4294967296 * wv)", "print 4294967296 * wv"],
+    "wide-int-literal-argument": ["wf = fn(q: bigint) -> bigint {", "\treturn q + B1", "}", "wv = 1", "print typeof wf(wv + 2147483648)", "print wf(wv + 2147483648)"],
+    "wide-int-literal-compared": ["wv = 1", "print typeof (wv < 2147483648)", "print wv < 2147483648"],
     "alias-arith": ["type M int", "am: M = 4", "print typeof (am * 2)", "print am * 2"],
     "self-returning-method": ["class S {", "\tn: int", "\tconstructor(self) {", "\t\tself.n = 1", "\t}", "\tfn me(self) -> Self {", "\t\treturn self",
                               "\t}", "}", "so = S()", "print typeof so.me().n", "print so.me().n"],
